@@ -731,3 +731,19 @@ impl Interpreter for BytecodeInterpreter {
         &self.vm.unit_registry
     }
 }
+
+#[cfg(feature = "verif-hooks")]
+impl BytecodeInterpreter {
+    /// Read-only access for the verification harness: the raw value bound to a global name
+    /// (innermost definition).
+    pub fn verif_global_value(&self, name: &str) -> Option<&Value> {
+        let position = self.locals[0]
+            .iter()
+            .rposition(|l| l.identifiers.iter().any(|n| n == name))?;
+        self.vm.verif_stack_value(position)
+    }
+
+    pub fn verif_last_result(&self) -> Option<&Value> {
+        self.vm.verif_last_result()
+    }
+}
